@@ -255,9 +255,15 @@ func c06Units(ctx *core.Ctx) []core.Unit {
 		needRef()
 		a, b := ref.Compress(ref.SRS()[3]), ref.Compress(ref.SRS()[4])
 		bad := be32(bigP) // not canonical: must be rejected whatever the other stream does
-		for vi, pair := range [][2][]byte{{a[:], b[:]}, {a[:], bad}} {
+		for vi, pair := range [][2][]byte{{a[:], b[:]}, {a[:], bad}, {a[:], b[:]}, {b[:], bad}} {
 			pair := pair
+			failFirst := vi >= 2
 			body := func() string {
+				if failFirst {
+					// history: reads that ended with an error (truncated stream, reader fault) come first
+					common.ReadPoint(bytes.NewReader(pair[0][:20]))
+					common.ReadPoint(&yieldReader{data: pair[1][:7], chunk: 3, tok: new(vsched.Mutex)})
+				}
 				var wg vsched.WaitGroup
 				var tok vsched.Mutex
 				outs := make([]string, 2)
@@ -278,10 +284,10 @@ func c06Units(ctx *core.Ctx) []core.Unit {
 				return outs[0] + " | " + outs[1]
 			}
 			want := hx(pair[0]) + " | " + hx(pair[1])
-			if vi == 1 {
+			if vi == 1 || vi == 3 {
 				want = hx(pair[0]) + " | rejected"
 			}
-			st := core.Explore(r, core.SchedSpec{Name: fmt.Sprintf("common.ReadPoint x 2 through yielding readers (variant %d)", vi), API: "common.ReadPoint", Check: "c06.concurrent_streams", Body: body, Expect: want, Mode: "dpor", Opt: explore.Options{DataBudget: 0, MaxExecs: 100000, Deadline: schedDeadline(ctx)}})
+			st := core.Explore(r, core.SchedSpec{Name: fmt.Sprintf("common.ReadPoint x 2 through yielding readers (variant %d, failed reads first: %v)", vi, failFirst), API: "common.ReadPoint", Check: "c06.concurrent_streams", Body: body, Expect: want, Mode: "dpor", Opt: explore.Options{DataBudget: 0, MaxExecs: 100000, Deadline: schedDeadline(ctx)}})
 			r.Evals += int64(st.Execs)
 			r.Nontrivial += int64(st.Complete)
 		}
